@@ -515,6 +515,10 @@ async fn history(case: Json) -> Json {
     for rq in requests {
         let presented: Option<ClientCookie> = match rq.get("src") {
             Some(Json::String(x)) if x == "none" => None,
+            // the cookie in the jar with its value replaced by garbage: must be treated as no cookie
+            Some(Json::String(x)) if x == "tampered" => jar.as_ref().and_then(|c| {
+                c.pair.split_once('=').map(|(n, _)| ClientCookie { pair: format!("{n}=x"), id: None })
+            }),
             Some(Json::Number(n)) => n
                 .as_u64()
                 .and_then(|i| issued.get(i as usize).cloned())
@@ -627,7 +631,7 @@ async fn history(case: Json) -> Json {
         };
         jar = match &new_cookie {
             Some(c) => c.clone(),
-            None => presented.clone(),
+            None => presented.clone().filter(|c| c.id.is_some()),
         };
         issued.push(new_cookie.flatten());
 
